@@ -65,6 +65,12 @@ func executeCompaction(db *DB) (compactionMetadata *proto.CompactionMetadata, er
 	// make sure we're always compacting with the right order in mind
 	sort.Strings(paths)
 
+	// tables that only held tombstones compact to a table without records, selecting only such tables
+	// gives zero records, which the bloom filter of the writer would reject
+	if numRecords == 0 {
+		numRecords = 1
+	}
+
 	start := time.Now()
 	writeFolder, err := os.MkdirTemp(db.basePath, SSTableCompactionPathPrefix)
 	if err != nil {
